@@ -1,6 +1,7 @@
 package main
 
 import (
+	ammtypes "github.com/elys-network/elys/x/amm/types"
 	sdkmath "cosmossdk.io/math"
 
 	commitmenttypes "github.com/elys-network/elys/x/commitment/types"
@@ -49,7 +50,18 @@ func (a *GovChaosAgent) Step(s *Sim) {
 	gov := s.W.GovAddr.String()
 	app := s.N0.App
 	ctx := s.Ctx()
-	switch r.IntN(8) {
+	switch r.IntN(9) {
+	case 8:
+		// the amm's fee-splitting knobs, inside their meaningful range (the defaults - half of the
+		// weight-breaking fee to the treasury, a tenth of the recovery fee - make several distinct
+		// quantities coincide)
+		p := app.AmmKeeper.GetParams(ctx)
+		p.WeightBreakingFeePortion = sdkmath.LegacyMustNewDecFromStr(pick(r, []string{"0", "0.2", "0.5", "0.8", "1"}))
+		p.WeightRecoveryFeePortion = sdkmath.LegacyMustNewDecFromStr(pick(r, []string{"0", "0.1", "0.5", "1"}))
+		p.WeightBreakingFeeMultiplier = sdkmath.LegacyMustNewDecFromStr(pick(r, []string{"0.0005", "0.005", "0.05"}))
+		p.ThresholdWeightDifference = sdkmath.LegacyMustNewDecFromStr(pick(r, []string{"0.05", "0.3", "0.6"}))
+		s.Gov.Propose(&ammtypes.MsgUpdateParams{Authority: gov, Params: &p})
+		s.Stats.Probe("gov_changes_amm_fee_split")
 	case 0, 1:
 		// a second vesting programme: liquid tokens vest into themselves (VestLiquid)
 		d := pick(r, []string{DenomATOM, DenomUSDC})
